@@ -4,7 +4,21 @@
 // Explicit-state BFS over REAL objects: a successor is computed by building a
 // fresh carrier, replaying the shortest path to the state on it, and applying
 // one more operation. The canonical state key is derived from the real object
-// (carrier + sorted names it reports); the reference model is a Go map.
+// (carrier + sorted names it reports, each with the kind of handler that was
+// accepted for it); the reference model is a Go map plus a REAL grpc.Server
+// that is driven by the same sequence (same registrations, a GetServiceInfo
+// whenever the registry is asked for one, the same in-place edits of the
+// results it handed out).
+//
+// Dimensions of the alphabet:
+//   - registration: descriptor x handler value, the handler being one of
+//     pointer implementing the interface | typed-nil pointer of that type |
+//     untyped nil | pointer of another service's type | typed-nil pointer of
+//     another service's type | value of a pointer-receiver type;
+//   - reads: QueryService / dispatch for every name of interest, ForEach,
+//     GetServiceInfo;
+//   - "the caller edits, in place, every result GetServiceInfo has handed out
+//     so far" (one op per kind of edit, see mutationKinds), followed by all reads.
 package main
 
 import (
@@ -14,8 +28,10 @@ import (
 	"net/http/httptest"
 	"os"
 	"reflect"
+	"runtime"
 	"sort"
 	"strings"
+	"sync"
 	"sync/atomic"
 	"time"
 
@@ -111,6 +127,18 @@ type qname struct {
 // proper suffix, extension). A near miss is "registered" only if exactly that
 // string was registered (possible for "/p.Unary1" on the HandlerMap).
 func queryNames(carrierName string) []qname {
+	qnOnce.Do(func() {
+		for _, cn := range carrierNames {
+			qnCache[cn] = computeQueryNames(cn)
+		}
+	})
+	return qnCache[carrierName]
+}
+
+var qnOnce sync.Once
+var qnCache = map[string][]qname{}
+
+func computeQueryNames(carrierName string) []qname {
 	var out []qname
 	seen := map[string]bool{}
 	add := func(n string, from int) {
@@ -151,58 +179,110 @@ type event struct {
 	srv     interface{}
 }
 
-var evlog []event
+// pctx is everything that belongs to ONE path (one fresh carrier + the ops
+// replayed on it); paths are independent, so they can be run in parallel.
+type pctx struct {
+	evmu     sync.Mutex
+	evlog    []event
+	descTags map[*grpc.ServiceDesc]string
+	lastObs  string // what the last applied op was seen to do (for evidence samples)
 
-// what the last applied op was seen to do (for evidence samples)
-var lastObs string
+	// the reference: a real grpc.Server driven by the same sequence
+	ref *grpc.Server
+	// every result GetServiceInfo has handed out on this path (registry / reference)
+	held, refHeld []map[string]grpc.ServiceInfo
 
-var descTags = map[*grpc.ServiceDesc]string{}
+	tainted  bool            // a mutate op has been applied on this path
+	baseline map[string]bool // clause|detail of the problems seen before the first mutate op
+	writes   int             // elements / map entries written by mutate ops
+	nilAcc   int             // fresh registrations with an untyped nil handler that were accepted
+	nilRef   int             // ... that were refused by panicking
+}
+
+var refServers int64
+
+func newCtx() *pctx {
+	atomic.AddInt64(&refServers, 1)
+	return &pctx{descTags: map[*grpc.ServiceDesc]string{}, ref: grpc.NewServer(), baseline: map[string]bool{}}
+}
+
+func (x *pctx) logEvent(e event) {
+	x.evmu.Lock()
+	x.evlog = append(x.evlog, e)
+	x.evmu.Unlock()
+}
+
+func (x *pctx) takeEvents() []event {
+	x.evmu.Lock()
+	evs := x.evlog
+	x.evlog = nil
+	x.evmu.Unlock()
+	return evs
+}
 
 // id describes a descriptor or handler object by the step that created it (stable across runs).
-func id(v interface{}) string {
-	switch x := v.(type) {
+func (x *pctx) id(v interface{}) string {
+	switch h := v.(type) {
 	case nil:
 		return "nil"
 	case *grpc.ServiceDesc:
-		if x == nil {
+		if h == nil {
 			return "nil"
 		}
-		if t, ok := descTags[x]; ok {
+		if t, ok := x.descTags[h]; ok {
 			return "desc@" + t
 		}
-		return "desc@?(" + x.ServiceName + ")"
+		return "desc@?(" + h.ServiceName + ")"
 	case *h0:
-		return "*h0@" + x.tag
+		if h == nil {
+			return "(*h0)(nil)"
+		}
+		return "*h0@" + h.tag
 	case *h1:
-		return "*h1@" + x.tag
+		if h == nil {
+			return "(*h1)(nil)"
+		}
+		return "*h1@" + h.tag
 	case *h2:
-		return "*h2@" + x.tag
+		if h == nil {
+			return "(*h2)(nil)"
+		}
+		return "*h2@" + h.tag
 	case *h3:
-		return "*h3@" + x.tag
+		if h == nil {
+			return "(*h3)(nil)"
+		}
+		return "*h3@" + h.tag
 	case *h4:
-		return "*h4@" + x.tag
+		if h == nil {
+			return "(*h4)(nil)"
+		}
+		return "*h4@" + h.tag
 	case *h5:
-		return "*h5@" + x.tag
+		if h == nil {
+			return "(*h5)(nil)"
+		}
+		return "*h5@" + h.tag
 	}
 	return fmt.Sprintf("%T", v)
 }
 
 // makeDesc builds a FRESH descriptor object (new pointer, new closures) for pool entry i.
-func makeDesc(i int, tag string) *grpc.ServiceDesc {
+func (x *pctx) makeDesc(i int, tag string) *grpc.ServiceDesc {
 	p := pool[i]
 	d := &grpc.ServiceDesc{ServiceName: p.name, HandlerType: p.htype, Metadata: p.metadata}
-	descTags[d] = tag
+	x.descTags[d] = tag
 	for _, m := range p.unary {
 		m := m
 		d.Methods = append(d.Methods, grpc.MethodDesc{MethodName: m, Handler: func(srv interface{}, ctx context.Context, dec func(interface{}) error, ic grpc.UnaryServerInterceptor) (interface{}, error) {
-			evlog = append(evlog, event{tag, m, srv})
+			x.logEvent(event{tag, m, srv})
 			return wrapperspb.String(tag), nil
 		}})
 	}
 	for _, s := range p.streams {
 		s := s
 		d.Streams = append(d.Streams, grpc.StreamDesc{StreamName: s.name, ClientStreams: s.client, ServerStreams: s.server, Handler: func(srv interface{}, stream grpc.ServerStream) error {
-			evlog = append(evlog, event{tag, s.name, srv})
+			x.logEvent(event{tag, s.name, srv})
 			return nil
 		}})
 	}
@@ -225,12 +305,24 @@ func goodHandler(i int, tag string) interface{} {
 	return &h5{tag}
 }
 
-// illHandler: "other" = a well-formed handler of a different service;
-// "value" = a value of the right struct type (its methods have pointer receivers).
-func illHandler(i int, kind, tag string) interface{} {
-	if kind == "other" {
-		return goodHandler((i+1)%len(pool), tag)
+// typedNil: a nil pointer of the handler type of pool entry i (it implements the interface).
+func typedNil(i int) interface{} {
+	switch i {
+	case 0:
+		return (*h0)(nil)
+	case 1:
+		return (*h1)(nil)
+	case 2:
+		return (*h2)(nil)
+	case 3:
+		return (*h3)(nil)
+	case 4:
+		return (*h4)(nil)
 	}
+	return (*h5)(nil)
+}
+
+func valueHandler(i int, tag string) interface{} {
 	switch i {
 	case 0:
 		return h0{tag}
@@ -244,6 +336,63 @@ func illHandler(i int, kind, tag string) interface{} {
 		return h4{tag}
 	}
 	return h5{tag}
+}
+
+// The handler dimension. For pool descriptor i an op kind selects the handler VALUE:
+//
+//	reg        pointer to the implementing struct                      well-typed
+//	reg-tnil   nil pointer of the implementing type                    well-typed (grpc.Server accepts it)
+//	reg-nil    untyped nil                                             see nilHandlerRule
+//	ill-other  pointer to the struct implementing ANOTHER service      ill-typed
+//	ill-tnil   nil pointer of the type implementing another service    ill-typed
+//	ill-value  value of the right struct (methods have ptr receivers)  ill-typed
+var regKinds = []string{"reg", "reg-tnil", "reg-nil", "ill-other", "ill-tnil", "ill-value"}
+
+const nilHandlerRule = "an untyped nil handler implements no interface, so the statement allows refusing it by a panic that leaves the registry intact (what the library does); a standard grpc.Server accepts it as a registration without implementation, so accepting it is allowed as well, and then it IS a registration: visible to lookup / iteration / info exactly like in grpc.Server, and a second registration for that name must be refused. Under a name that is already registered a nil handler must be refused like any other."
+
+func isRegKind(k string) bool {
+	for _, r := range regKinds {
+		if r == k {
+			return true
+		}
+	}
+	return false
+}
+
+func makeHandler(i int, kind, tag string) interface{} {
+	switch kind {
+	case "reg":
+		return goodHandler(i, tag)
+	case "reg-tnil":
+		return typedNil(i)
+	case "reg-nil":
+		return nil
+	case "ill-other":
+		return goodHandler((i+1)%len(pool), tag)
+	case "ill-tnil":
+		return typedNil((i + 1) % len(pool))
+	case "ill-value":
+		return valueHandler(i, tag)
+	}
+	panic("bad handler kind " + kind)
+}
+
+// hkind of an accepted registration: "" (pointer), "tnil", "nil"
+func hkindOf(kind string) string {
+	switch kind {
+	case "reg-tnil":
+		return "tnil"
+	case "reg-nil":
+		return "nil"
+	}
+	return ""
+}
+
+func hkindLabel(k string) string {
+	if k == "" {
+		return "ptr"
+	}
+	return k
 }
 
 // ---------------------------------------------------------------- carriers
@@ -286,29 +435,37 @@ func newCarrier(name string) carrier {
 	panic("unknown carrier " + name)
 }
 
+// info asks the registry AND the reference server for their service info and
+// keeps both results: every result ever handed out stays reachable for the
+// mutate ops.
+func (x *pctx) info(c carrier) (got, want map[string]grpc.ServiceInfo) {
+	got = c.Info()
+	want = x.ref.GetServiceInfo()
+	x.held = append(x.held, got)
+	x.refHeld = append(x.refHeld, want)
+	return
+}
+
 // dispatch calls one method of a service through the transport; it returns the
 // handler events it caused and whether the transport reported success.
-func dispatch(c carrier, svc, method string, isStream bool, sd streamDef) (evs []event, ok bool, obs string) {
-	evlog = nil
+func (x *pctx) dispatch(c carrier, svc, method string, isStream bool, sd streamDef) (evs []event, ok bool, obs string) {
+	x.takeEvents()
 	switch c := c.(type) {
 	case *inprocCarrier:
 		full := "/" + svc + "/" + method
 		if !isStream {
 			var out wrapperspb.StringValue
 			err := c.ch.Invoke(context.Background(), full, &emptypb.Empty{}, &out)
-			evs, evlog = evlog, nil
-			return evs, err == nil, fmt.Sprintf("err=%v resp=%q", err, out.Value)
+			return x.takeEvents(), err == nil, fmt.Sprintf("err=%v resp=%q", err, out.Value)
 		}
 		cs, err := c.ch.NewStream(context.Background(), &grpc.StreamDesc{StreamName: method, ClientStreams: sd.client, ServerStreams: sd.server}, full)
 		if err != nil {
-			evs, evlog = evlog, nil
-			return evs, false, fmt.Sprintf("NewStream err=%v", err)
+			return x.takeEvents(), false, fmt.Sprintf("NewStream err=%v", err)
 		}
 		cs.CloseSend()
 		var out wrapperspb.StringValue
 		err = cs.RecvMsg(&out) // returns once the server side has finished
-		evs, evlog = evlog, nil
-		return evs, err == io.EOF, fmt.Sprintf("recv err=%v", err)
+		return x.takeEvents(), err == io.EOF, fmt.Sprintf("recv err=%v", err)
 	case *httpCarrier:
 		req := httptest.NewRequest("POST", "/"+svc+"/"+method, strings.NewReader(""))
 		if isStream {
@@ -318,8 +475,7 @@ func dispatch(c carrier, svc, method string, isStream bool, sd streamDef) (evs [
 		}
 		rec := httptest.NewRecorder()
 		c.s.ServeHTTP(rec, req)
-		evs, evlog = evlog, nil
-		return evs, rec.Code == 200, fmt.Sprintf("http=%d x-grpc-status=%q", rec.Code, rec.Header().Get("X-GRPC-Status"))
+		return x.takeEvents(), rec.Code == 200, fmt.Sprintf("http=%d x-grpc-status=%q", rec.Code, rec.Header().Get("X-GRPC-Status"))
 	}
 	panic("dispatch on a carrier without transport")
 }
@@ -330,42 +486,181 @@ type reg struct {
 	idx     int
 	desc    *grpc.ServiceDesc
 	handler interface{}
+	hkind   string // "" pointer | "tnil" | "nil"
 	tag     string
 }
 
 type model map[string]reg
 
+func keySuffix(hk string) string {
+	if hk == "" {
+		return ""
+	}
+	return "=" + hk
+}
+
 func (m model) key() string {
 	names := make([]string, 0, len(m))
-	for n := range m {
-		names = append(names, n)
+	for n, r := range m {
+		names = append(names, n+keySuffix(r.hkind))
 	}
 	sort.Strings(names)
 	return "{" + strings.Join(names, ",") + "}"
 }
 
-// implKey is the canonical key computed from the REAL object.
-func implKey(c carrier) string {
+// implKey is the canonical state key: the names the REAL object reports, each
+// with the kind of handler accepted for it (pointer: no suffix; "=tnil";
+// "=nil") -- the behaviour of a registration attempt may depend on what is
+// stored, not only on which names are present.
+func (x *pctx) implKey(c carrier, m model) string {
 	names := []string{}
-	for n := range c.Info() {
-		names = append(names, n)
+	got, _ := x.info(c)
+	for n := range got {
+		names = append(names, n+keySuffix(m[n].hkind))
 	}
 	sort.Strings(names)
 	return "{" + strings.Join(names, ",") + "}"
+}
+
+// ---------------------------------------------------------------- mutation of results handed out
+
+// The caller edits, in place, what GetServiceInfo gave it. Reachable from a
+// result: the map itself and the backing array of each Methods slice (up to
+// its capacity). Metadata is the descriptor's own value in grpc.Server too,
+// so it is not expected to be insulated and is left alone.
+//
+//	slice level (every Methods slice of every service of every held result):
+//	  zero     every element := MethodInfo{}
+//	  rename   every element: Name prefixed with "~", both flags flipped
+//	  filter   in-place filter s[:0]+append keeping the streaming methods, stored back into the map
+//	  shift    copy(s, s[1:]) (truncate-and-append style: duplicates one, loses one)
+//	  reverse  in-place reversal
+//	  inject   every element of s[:cap(s)] := {Injected, true, true} (also the spare capacity)
+//	map level:
+//	  clear    delete every key
+//	  ghost    every present entry := ServiceInfo{}; every pool name, the unknown name and "" that is absent gets an invented entry
+//	  swap     rotate the entries among the (sorted) names
+//	both:
+//	  scribble inject, then ghost (everything reachable is overwritten)
+var mutationKinds = []string{"zero", "rename", "filter", "shift", "reverse", "inject", "clear", "ghost", "swap", "scribble"}
+
+func mutateResult(kind string, r map[string]grpc.ServiceInfo) (writes int) {
+	names := make([]string, 0, len(r))
+	for n := range r {
+		names = append(names, n)
+	}
+	sort.Strings(names)
+	slices := func(f func(n string, s []grpc.MethodInfo)) {
+		for _, n := range names {
+			f(n, r[n].Methods)
+		}
+	}
+	inject := func() {
+		slices(func(_ string, s []grpc.MethodInfo) {
+			t := s[:cap(s)]
+			for i := range t {
+				t[i] = grpc.MethodInfo{Name: "Injected", IsClientStream: true, IsServerStream: true}
+				writes++
+			}
+		})
+	}
+	ghost := func() {
+		if r == nil {
+			return // nothing can be stored in a nil map
+		}
+		for _, n := range names {
+			r[n] = grpc.ServiceInfo{}
+			writes++
+		}
+		cand := []string{unknownName, ""}
+		for _, p := range pool {
+			cand = append(cand, p.name)
+		}
+		for _, n := range cand {
+			if _, ok := r[n]; !ok {
+				r[n] = grpc.ServiceInfo{Methods: []grpc.MethodInfo{{Name: "Ghost"}}, Metadata: "ghost"}
+				writes++
+			}
+		}
+	}
+	switch kind {
+	case "zero":
+		slices(func(_ string, s []grpc.MethodInfo) {
+			for i := range s {
+				s[i] = grpc.MethodInfo{}
+				writes++
+			}
+		})
+	case "rename":
+		slices(func(_ string, s []grpc.MethodInfo) {
+			for i := range s {
+				s[i] = grpc.MethodInfo{Name: "~" + s[i].Name, IsClientStream: !s[i].IsClientStream, IsServerStream: !s[i].IsServerStream}
+				writes++
+			}
+		})
+	case "filter":
+		slices(func(n string, s []grpc.MethodInfo) {
+			keep := s[:0]
+			for _, mi := range s {
+				if mi.IsClientStream || mi.IsServerStream {
+					keep = append(keep, mi)
+					writes++
+				}
+			}
+			si := r[n]
+			si.Methods = keep
+			r[n] = si
+			writes++
+		})
+	case "shift":
+		slices(func(_ string, s []grpc.MethodInfo) {
+			if len(s) > 1 {
+				writes += copy(s, s[1:])
+			}
+		})
+	case "reverse":
+		slices(func(_ string, s []grpc.MethodInfo) {
+			for i, j := 0, len(s)-1; i < j; i, j = i+1, j-1 {
+				s[i], s[j] = s[j], s[i]
+				writes += 2
+			}
+		})
+	case "inject":
+		inject()
+	case "clear":
+		for _, n := range names {
+			delete(r, n)
+			writes++
+		}
+	case "ghost":
+		ghost()
+	case "swap":
+		if len(names) > 1 {
+			first := r[names[0]]
+			for i := 0; i+1 < len(names); i++ {
+				r[names[i]] = r[names[i+1]]
+				writes++
+			}
+			r[names[len(names)-1]] = first
+			writes++
+		}
+	case "scribble":
+		inject()
+		ghost()
+	default:
+		panic("bad mutation kind " + kind)
+	}
+	return
 }
 
 // ---------------------------------------------------------------- ops
 
-// op strings: reg:<name>  ill-other:<name>  ill-value:<name>  query:<name>  foreach  info
-func opsFor(carrierName string) (registerOps, readOps []string) {
-	for _, i := range poolFor(carrierName) {
-		registerOps = append(registerOps, "reg:"+pool[i].name)
-	}
-	for _, i := range poolFor(carrierName) {
-		registerOps = append(registerOps, "ill-other:"+pool[i].name)
-	}
-	for _, i := range poolFor(carrierName) {
-		registerOps = append(registerOps, "ill-value:"+pool[i].name)
+// op strings: <reg kind>:<name>  query:<name>  foreach  info  mutate:<kind>
+func opsFor(carrierName string) (registerOps, readOps, mutateOps []string) {
+	for _, k := range regKinds {
+		for _, i := range poolFor(carrierName) {
+			registerOps = append(registerOps, k+":"+pool[i].name)
+		}
 	}
 	for _, q := range queryNames(carrierName) {
 		readOps = append(readOps, "query:"+q.name)
@@ -374,6 +669,9 @@ func opsFor(carrierName string) (registerOps, readOps []string) {
 		readOps = append(readOps, "foreach")
 	}
 	readOps = append(readOps, "info")
+	for _, k := range mutationKinds {
+		mutateOps = append(mutateOps, "mutate:"+k)
+	}
 	return
 }
 
@@ -381,6 +679,38 @@ type problem struct {
 	clause string // short, goes into the fingerprint
 	detail string // parameter that matters (service name ...), goes into the fingerprint
 	what   string
+	mut    bool // seen only after a mutate op of the path (see absorb / runPath)
+}
+
+const afterMutation = "after-result-mutation:"
+
+func (p problem) key() string { return p.clause + "|" + p.detail }
+
+// render: clause and description as reported; a problem attributed to a mutate
+// op has its own clause, so that it never shares a fingerprint with a defect
+// that shows without any mutation.
+func (p problem) render() (clause, what string) {
+	if !p.mut {
+		return p.clause, p.what
+	}
+	return afterMutation + p.clause, "after the caller edited, in place, the results GetServiceInfo had returned earlier (the same edits were made to the results of the reference grpc.Server): " + p.what
+}
+
+// absorb classifies the problems of one evaluation: before the first mutate op
+// of the path they form the baseline; afterwards a problem that was not in the
+// baseline is a candidate for being attributed to the mutation (runPath then
+// replays the path without its mutate ops as the control and keeps the
+// attribution only for what the control does not show).
+func (x *pctx) absorb(ps []problem) []problem {
+	for i := range ps {
+		k := ps[i].key()
+		if !x.tainted {
+			x.baseline[k] = true
+		} else if !x.baseline[k] {
+			ps[i].mut = true
+		}
+	}
+	return ps
 }
 
 func callRegister(c carrier, d *grpc.ServiceDesc, h interface{}) (panicked bool, pv interface{}) {
@@ -397,101 +727,142 @@ func callRegister(c carrier, d *grpc.ServiceDesc, h interface{}) (panicked bool,
 func guarded(clause, detail string, probs *[]problem, f func()) {
 	defer func() {
 		if r := recover(); r != nil {
-			*probs = append(*probs, problem{clause + "-panic", detail, fmt.Sprintf("%s(%s) panicked: %v", clause, detail, r)})
+			*probs = append(*probs, problem{clause: clause + "-panic", detail: detail, what: fmt.Sprintf("%s(%s) panicked: %v", clause, detail, r)})
 		}
 	}()
 	f()
 }
 
-// applyOp applies one op to the real object and to the model, and checks the op's own contract.
-func applyOp(c carrier, m model, op string, step int) (probs []problem) {
+// applyOp applies one op to the real object, to the model and to the reference
+// server, and checks the op's own contract.
+func (x *pctx) applyOp(c carrier, m model, op string, step int) (probs []problem) {
 	kind, name := op, ""
 	if i := strings.IndexByte(op, ':'); i >= 0 {
 		kind, name = op[:i], op[i+1:]
 	}
-	before := implKey(c)
+	before := x.implKey(c, m)
 	tag := fmt.Sprintf("s%d", step)
-	lastObs = "read evaluated by the oracle; registry unchanged"
-	switch kind {
-	case "reg", "ill-other", "ill-value":
+	x.lastObs = "read evaluated by the oracle; registry unchanged"
+	switch {
+	case isRegKind(kind):
 		i := poolIndex(name)
-		d := makeDesc(i, tag)
-		var h interface{}
-		wantPanic := true
+		d := x.makeDesc(i, tag)
+		h := makeHandler(i, kind, tag)
+		old, dup := m[name]
+		wellTyped := kind == "reg" || kind == "reg-tnil"
+		either := kind == "reg-nil" && !dup // see nilHandlerRule
+		wantPanic := dup || !(wellTyped || either)
 		why := ""
-		if kind == "reg" {
-			h = goodHandler(i, tag)
-			_, dup := m[name]
-			wantPanic = dup
+		switch {
+		case dup && (wellTyped || kind == "reg-nil"):
 			why = "duplicate registration"
-		} else {
-			h = illHandler(i, strings.TrimPrefix(kind, "ill-"), tag)
+		case kind == "reg-nil":
+			why = "untyped nil handler"
+		default:
 			why = fmt.Sprintf("handler %T does not implement the service interface", h)
 		}
+		// the parameter that matters: the name, and what kind of handler is held / offered when
+		// either is not the ordinary pointer
+		detail := name
+		if dup && (kind == "reg-tnil" || kind == "reg-nil" || old.hkind != "") {
+			detail = fmt.Sprintf("%s[held=%s,new=%s]", name, hkindLabel(old.hkind), hkindLabel(hkindOf(kind)))
+		} else if !dup && kind == "reg-tnil" {
+			detail = name + "[new=tnil]"
+		}
 		panicked, pv := callRegister(c, d, h)
-		lastObs = fmt.Sprintf("RegisterService(%s, %T) panicked=%v", name, h, panicked)
+		x.lastObs = fmt.Sprintf("RegisterService(%s, %s) panicked=%v", name, x.id(h), panicked)
 		if panicked {
-			lastObs += fmt.Sprintf(" (%v)", pv)
+			x.lastObs += fmt.Sprintf(" (%v)", pv)
+		}
+		accepted := !wantPanic
+		if either {
+			accepted = !panicked
+			if panicked {
+				x.nilRef++
+			} else {
+				x.nilAcc++
+			}
 		}
 		switch {
+		case either:
 		case wantPanic && !panicked:
 			cl := "dup-not-refused"
-			if kind != "reg" {
+			if !wellTyped && kind != "reg-nil" {
 				cl = kind + "-not-refused"
 			}
-			probs = append(probs, problem{cl, name, fmt.Sprintf("RegisterService(%s) with %s did not panic", name, why)})
+			probs = append(probs, problem{clause: cl, detail: detail, what: fmt.Sprintf("RegisterService(%s, %s) with %s did not panic", name, x.id(h), why)})
 		case !wantPanic && panicked:
-			probs = append(probs, problem{"good-registration-panicked", name, fmt.Sprintf("first, well-typed RegisterService(%s) panicked: %v", name, pv)})
+			probs = append(probs, problem{clause: "good-registration-panicked", detail: detail, what: fmt.Sprintf("first, well-typed RegisterService(%s, %s) panicked: %v", name, x.id(h), pv)})
 		}
-		if !wantPanic {
-			m[name] = reg{idx: i, desc: d, handler: h, tag: tag}
+		if accepted {
+			m[name] = reg{idx: i, desc: d, handler: h, hkind: hkindOf(kind), tag: tag}
+			x.ref.RegisterService(d, h) // the same registration on the reference server
 		}
-		if after := implKey(c); after != m.key() {
+		if after := x.implKey(c, m); after != m.key() {
 			cl := "state-after-" + kind
-			if kind == "reg" && wantPanic {
+			if dup && (wellTyped || kind == "reg-nil") {
 				cl = "state-after-dup"
 			}
-			probs = append(probs, problem{cl, name, fmt.Sprintf("after %s (%s) the registry reports %s, expected %s (before: %s)", op, why, after, m.key(), before)})
+			probs = append(probs, problem{clause: cl, detail: detail, what: fmt.Sprintf("after %s (%s) the registry reports %s, expected %s (before: %s)", op, why, after, m.key(), before)})
 		}
-	case "query", "foreach", "info":
+	case kind == "query" || kind == "foreach" || kind == "info":
 		// the read itself is evaluated by the state oracle (which performs every read op);
 		// as a transition it must be a self loop
 		switch kind {
 		case "query":
 			q := qname{name, -1}
-			for _, x := range queryNames(c.Name()) {
-				if x.name == name {
-					q = x
+			for _, y := range queryNames(c.Name()) {
+				if y.name == name {
+					q = y
 				}
 			}
-			guarded("query", name, &probs, func() { queryOracle(c, m, q, &probs) })
+			guarded("query", name, &probs, func() { x.queryOracle(c, m, q, &probs) })
 		case "foreach":
-			guarded("foreach", "", &probs, func() { forEachOracle(c.(*mapCarrier), m, &probs) })
+			guarded("foreach", "", &probs, func() { x.forEachOracle(c.(*mapCarrier), m, &probs) })
 		case "info":
-			guarded("info", "", &probs, func() { infoOracle(c, m, &probs) })
+			guarded("info", "", &probs, func() { x.infoOracle(c, m, &probs) })
 		}
-		if after := implKey(c); after != before {
-			probs = append(probs, problem{"read-op-changed-state", kind, fmt.Sprintf("%s changed the registry from %s to %s", op, before, after)})
+		if after := x.implKey(c, m); after != before {
+			probs = append(probs, problem{clause: "read-op-changed-state", detail: kind, what: fmt.Sprintf("%s changed the registry from %s to %s", op, before, after)})
 		}
+	case kind == "mutate":
+		// differential probe: all reads before, the edit, all reads after
+		probs = x.absorb(x.stateOracle(c, m))
+		nh, w := len(x.held), 0
+		for _, r := range x.held[:nh] {
+			w += mutateResult(name, r)
+		}
+		for _, r := range x.refHeld {
+			mutateResult(name, r)
+		}
+		x.writes += w
+		x.tainted = true
+		x.lastObs = fmt.Sprintf("edit %q applied to the %d results handed out so far (%d writes); all reads repeated", name, nh, w)
+		var post []problem
+		if after := x.implKey(c, m); after != before {
+			post = append(post, problem{clause: "state-after-mutate", detail: "", what: fmt.Sprintf("editing earlier results in place (%s) changed the registry from %s to %s", name, before, after)})
+		}
+		post = append(post, x.stateOracle(c, m)...)
+		return append(probs, x.absorb(post)...)
 	default:
 		panic("bad op " + op)
 	}
-	return
+	return x.absorb(probs)
 }
 
 // ---------------------------------------------------------------- oracle
 
-func queryOracle(c carrier, m model, q qname, probs *[]problem) {
+func (x *pctx) queryOracle(c carrier, m model, q qname, probs *[]problem) {
 	name := q.name
 	want, registered := m[name]
 	if mc, ok := c.(*mapCarrier); ok {
 		d, h := mc.m.QueryService(name)
 		if registered {
 			if d != want.desc || h != want.handler {
-				*probs = append(*probs, problem{"query-wrong", name, fmt.Sprintf("QueryService(%s) = (%s, %s), registered was (%s, %s)", name, id(d), id(h), id(want.desc), id(want.handler))})
+				*probs = append(*probs, problem{clause: "query-wrong", detail: name, what: fmt.Sprintf("QueryService(%s) = (%s, %s), registered was (%s, %s)", name, x.id(d), x.id(h), x.id(want.desc), x.id(want.handler))})
 			}
 		} else if d != nil || h != nil {
-			*probs = append(*probs, problem{"query-ghost", name, fmt.Sprintf("QueryService(%q) of a name never registered = (%s, %s)", name, id(d), id(h))})
+			*probs = append(*probs, problem{clause: "query-ghost", detail: name, what: fmt.Sprintf("QueryService(%q) of a name never registered = (%s, %s)", name, x.id(d), x.id(h))})
 		}
 		return
 	}
@@ -513,26 +884,26 @@ func queryOracle(c carrier, m model, q qname, probs *[]problem) {
 		calls = []call{{"X", false, streamDef{}}, {"Y", true, streamDef{"Y", true, true}}}
 	}
 	for _, cl := range calls {
-		evs, ok, obs := dispatch(c, name, cl.method, cl.stream, cl.sd)
+		evs, ok, obs := x.dispatch(c, name, cl.method, cl.stream, cl.sd)
 		if registered {
 			if len(evs) != 1 || evs[0].descTag != want.tag || evs[0].method != cl.method || evs[0].srv != want.handler || !ok {
-				*probs = append(*probs, problem{"dispatch-wrong", name, fmt.Sprintf("call /%s/%s: handler events %s, transport %s; expected exactly one run of the descriptor registered at %s with handler %s", name, cl.method, fmtEvents(evs), obs, want.tag, id(want.handler))})
+				*probs = append(*probs, problem{clause: "dispatch-wrong", detail: name, what: fmt.Sprintf("call /%s/%s: handler events %s, transport %s; expected exactly one run of the descriptor registered at %s with handler %s", name, cl.method, x.fmtEvents(evs), obs, want.tag, x.id(want.handler))})
 			}
 		} else if len(evs) != 0 || ok {
-			*probs = append(*probs, problem{"dispatch-ghost", name, fmt.Sprintf("call /%s/%s of a service not registered: handler events %s, transport %s", name, cl.method, fmtEvents(evs), obs)})
+			*probs = append(*probs, problem{clause: "dispatch-ghost", detail: name, what: fmt.Sprintf("call /%s/%s of a service not registered: handler events %s, transport %s", name, cl.method, x.fmtEvents(evs), obs)})
 		}
 	}
 }
 
-func fmtEvents(evs []event) string {
+func (x *pctx) fmtEvents(evs []event) string {
 	var s []string
 	for _, e := range evs {
-		s = append(s, fmt.Sprintf("desc@%s.%s(srv=%s)", e.descTag, e.method, id(e.srv)))
+		s = append(s, fmt.Sprintf("desc@%s.%s(srv=%s)", e.descTag, e.method, x.id(e.srv)))
 	}
 	return "[" + strings.Join(s, " ") + "]"
 }
 
-func forEachOracle(mc *mapCarrier, m model, probs *[]problem) {
+func (x *pctx) forEachOracle(mc *mapCarrier, m model, probs *[]problem) {
 	seen := map[string]int{}
 	total := 0
 	mc.m.ForEach(func(d *grpc.ServiceDesc, h interface{}) {
@@ -544,41 +915,22 @@ func forEachOracle(mc *mapCarrier, m model, probs *[]problem) {
 		seen[d.ServiceName]++
 		want, ok := m[d.ServiceName]
 		if !ok || want.desc != d || want.handler != h {
-			*probs = append(*probs, problem{"foreach-wrong-pair", d.ServiceName, fmt.Sprintf("ForEach visited (%s, %s, %s) which is not a registration of the model", d.ServiceName, id(d), id(h))})
+			*probs = append(*probs, problem{clause: "foreach-wrong-pair", detail: d.ServiceName, what: fmt.Sprintf("ForEach visited (%s, %s, %s) which is not a registration of the model", d.ServiceName, x.id(d), x.id(h))})
 		}
 	})
-	for n := range m {
-		if seen[n] != 1 {
-			*probs = append(*probs, problem{"foreach-count", n, fmt.Sprintf("ForEach visited %s %d times (total visits %d, registrations %d)", n, seen[n], total, len(m))})
-		}
-	}
-	if total != len(m) {
-		*probs = append(*probs, problem{"foreach-total", "", fmt.Sprintf("ForEach made %d visits for %d registrations: %v", total, len(m), seen)})
-	}
-}
-
-var refCache = map[string]map[string]grpc.ServiceInfo{}
-var refServers int
-
-// refInfo: what a real grpc.NewServer() reports for the same registrations.
-func refInfo(m model) map[string]grpc.ServiceInfo {
-	k := m.key()
-	if r, ok := refCache[k]; ok {
-		return r
-	}
-	s := grpc.NewServer()
 	names := make([]string, 0, len(m))
 	for n := range m {
 		names = append(names, n)
 	}
 	sort.Strings(names)
 	for _, n := range names {
-		s.RegisterService(makeDesc(m[n].idx, "ref"), goodHandler(m[n].idx, "ref"))
+		if seen[n] != 1 {
+			*probs = append(*probs, problem{clause: "foreach-count", detail: n, what: fmt.Sprintf("ForEach visited %s %d times (total visits %d, registrations %d)", n, seen[n], total, len(m))})
+		}
 	}
-	refServers++
-	r := s.GetServiceInfo()
-	refCache[k] = r
-	return r
+	if total != len(m) {
+		*probs = append(*probs, problem{clause: "foreach-total", detail: "", what: fmt.Sprintf("ForEach made %d visits for %d registrations: %v", total, len(m), seen)})
+	}
 }
 
 // methodSet: the method infos as a SET (design: "method lists as sets")
@@ -596,44 +948,59 @@ func methodSet(ms []grpc.MethodInfo) string {
 	return strings.Join(s, " ")
 }
 
-func infoOracle(c carrier, m model, probs *[]problem) {
-	got := c.Info()
-	want := refInfo(m)
-	for n, w := range want {
+// infoOracle: a fresh GetServiceInfo of the registry against a fresh
+// GetServiceInfo of the reference grpc.Server that was driven by the same sequence.
+func (x *pctx) infoOracle(c carrier, m model, probs *[]problem) {
+	got, want := x.info(c)
+	names := make([]string, 0, len(want))
+	for n := range want {
+		names = append(names, n)
+	}
+	sort.Strings(names)
+	for _, n := range names {
+		w := want[n]
 		g, ok := got[n]
 		if !ok {
-			*probs = append(*probs, problem{"info-missing-service", n, fmt.Sprintf("GetServiceInfo lacks %s which grpc.Server reports", n)})
+			*probs = append(*probs, problem{clause: "info-missing-service", detail: n, what: fmt.Sprintf("GetServiceInfo lacks %s which grpc.Server reports", n)})
 			continue
 		}
 		if methodSet(g.Methods) != methodSet(w.Methods) {
-			*probs = append(*probs, problem{"info-methods", n, fmt.Sprintf("GetServiceInfo[%s].Methods = {%s}, grpc.Server reports {%s}", n, methodSet(g.Methods), methodSet(w.Methods))})
+			*probs = append(*probs, problem{clause: "info-methods", detail: n, what: fmt.Sprintf("GetServiceInfo[%s].Methods = {%s}, grpc.Server reports {%s}", n, methodSet(g.Methods), methodSet(w.Methods))})
 		}
 		if !reflect.DeepEqual(g.Metadata, w.Metadata) {
-			*probs = append(*probs, problem{"info-metadata", n, fmt.Sprintf("GetServiceInfo[%s].Metadata = %#v, grpc.Server reports %#v", n, g.Metadata, w.Metadata)})
+			*probs = append(*probs, problem{clause: "info-metadata", detail: n, what: fmt.Sprintf("GetServiceInfo[%s].Metadata = %#v, grpc.Server reports %#v", n, g.Metadata, w.Metadata)})
 		}
 	}
+	names = names[:0]
 	for n := range got {
+		names = append(names, n)
+	}
+	sort.Strings(names)
+	for _, n := range names {
 		if _, ok := want[n]; !ok {
-			*probs = append(*probs, problem{"info-extra-service", n, fmt.Sprintf("GetServiceInfo reports %s which grpc.Server with the same registrations does not", n)})
+			*probs = append(*probs, problem{clause: "info-extra-service", detail: n, what: fmt.Sprintf("GetServiceInfo reports %s which grpc.Server with the same registrations does not", n)})
 		}
+	}
+	if len(want) != len(m) { // the reference and the model are driven together
+		panic(fmt.Sprintf("checker: reference server reports %d services, model has %d", len(want), len(m)))
 	}
 }
 
 // stateOracle evaluates every read operation in the current state.
-func stateOracle(c carrier, m model) (probs []problem) {
-	if k := implKey(c); k != m.key() {
-		probs = append(probs, problem{"state-key", "", fmt.Sprintf("registry reports %s, model %s", k, m.key())})
+func (x *pctx) stateOracle(c carrier, m model) (probs []problem) {
+	if k := x.implKey(c, m); k != m.key() {
+		probs = append(probs, problem{clause: "state-key", detail: "", what: fmt.Sprintf("registry reports %s, model %s", k, m.key())})
 	}
 	for _, q := range queryNames(c.Name()) {
 		q := q
-		guarded("query", q.name, &probs, func() { queryOracle(c, m, q, &probs) })
+		guarded("query", q.name, &probs, func() { x.queryOracle(c, m, q, &probs) })
 	}
 	if mc, ok := c.(*mapCarrier); ok {
-		guarded("foreach", "", &probs, func() { forEachOracle(mc, m, &probs) })
+		guarded("foreach", "", &probs, func() { x.forEachOracle(mc, m, &probs) })
 	}
-	guarded("info", "", &probs, func() { infoOracle(c, m, &probs) })
-	if k := implKey(c); k != m.key() {
-		probs = append(probs, problem{"state-key-after-reads", "", fmt.Sprintf("after the read operations the registry reports %s, model %s", k, m.key())})
+	guarded("info", "", &probs, func() { x.infoOracle(c, m, &probs) })
+	if k := x.implKey(c, m); k != m.key() {
+		probs = append(probs, problem{clause: "state-key-after-reads", detail: "", what: fmt.Sprintf("after the read operations the registry reports %s, model %s", k, m.key())})
 	}
 	return
 }
@@ -648,24 +1015,101 @@ type replayCase struct {
 var progress int64
 var current atomic.Value
 
-// runPath replays ops on a fresh carrier; the contract of every op is checked,
-// the full state oracle is evaluated after the LAST op (and after every op when all=true).
-func runPath(carrierName string, ops []string, all bool) (probs []problem, finalKey string, c carrier, m model) {
+type job struct {
+	carrier string
+	ops     []string
+	all     bool
+	control bool // the control run of a path with mutate ops (never starts another control)
+}
+
+type result struct {
+	probs          []problem
+	key, modelKey  string
+	obs            string
+	writes         int
+	nilAcc, nilRef int
+}
+
+// runPath replays ops on a fresh carrier (and a fresh reference server); the
+// contract of every op is checked, the full state oracle is evaluated after the
+// LAST op (and after every op when all=true).
+func runPath(j job) (res result) {
 	atomic.AddInt64(&progress, 1)
-	current.Store(carrierName + " " + strings.Join(ops, " "))
-	descTags = map[*grpc.ServiceDesc]string{} // per path, or it would retain every descriptor ever built
-	c = newCarrier(carrierName)
-	m = model{}
-	for i, op := range ops {
-		probs = append(probs, applyOp(c, m, op, i)...)
-		if all || i == len(ops)-1 {
-			probs = append(probs, stateOracle(c, m)...)
+	current.Store(j.carrier + " " + strings.Join(j.ops, " "))
+	x := newCtx()
+	defer x.ref.Stop()
+	c := newCarrier(j.carrier)
+	m := model{}
+	for i, op := range j.ops {
+		res.probs = append(res.probs, x.applyOp(c, m, op, i)...)
+		if j.all || i == len(j.ops)-1 {
+			res.probs = append(res.probs, x.absorb(x.stateOracle(c, m))...)
 		}
 	}
-	if len(ops) == 0 {
-		probs = append(probs, stateOracle(c, m)...)
+	if len(j.ops) == 0 {
+		res.probs = append(res.probs, x.absorb(x.stateOracle(c, m))...)
 	}
-	return probs, implKey(c), c, m
+	// control: the same path without its mutate ops; what it shows as well is not due to the edits
+	if !j.control {
+		cand := false
+		for _, p := range res.probs {
+			cand = cand || p.mut
+		}
+		if cand {
+			var ops []string
+			for _, op := range j.ops {
+				if opKind(op) != "mutate" {
+					ops = append(ops, op)
+				}
+			}
+			ctl := map[string]bool{}
+			for _, p := range runPath(job{j.carrier, ops, j.all, true}).probs {
+				ctl[p.key()] = true
+			}
+			for i := range res.probs {
+				if ctl[res.probs[i].key()] {
+					res.probs[i].mut = false
+				}
+			}
+		}
+	}
+	res.key, res.modelKey, res.obs = x.implKey(c, m), m.key(), x.lastObs
+	res.writes, res.nilAcc, res.nilRef = x.writes, x.nilAcc, x.nilRef
+	return
+}
+
+// runAll runs independent paths on all CPUs; the results are in job order, so
+// everything derived from them is deterministic.
+func runAll(n int, mk func(i int) job) []result {
+	out := make([]result, n)
+	workers := runtime.NumCPU()
+	if workers > 16 {
+		workers = 16
+	}
+	var next int64 = -1
+	var wg sync.WaitGroup
+	for w := 0; w < workers; w++ {
+		wg.Add(1)
+		go func() {
+			defer wg.Done()
+			for {
+				i := int(atomic.AddInt64(&next, 1))
+				if i >= n {
+					return
+				}
+				out[i] = runPath(mk(i))
+			}
+		}()
+	}
+	wg.Wait()
+	return out
+}
+
+func opKind(op string) string {
+	if i := strings.IndexByte(op, ':'); i >= 0 {
+		return op[:i]
+	}
+	return op
 }
 
 func main() {
@@ -689,12 +1133,13 @@ func main() {
 			fmt.Fprintln(os.Stderr, "INCONCLUSIVE:", err)
 			os.Exit(2)
 		}
-		probs, key, _, m := runPath(rc.Carrier, rc.Ops, true)
-		fmt.Printf("replay: carrier=%s ops=%v final registry=%s model=%s\n", rc.Carrier, rc.Ops, key, m.key())
-		for _, pr := range probs {
-			fmt.Printf("  %s[%s]: %s\n", pr.clause, pr.detail, pr.what)
+		res := runPath(job{rc.Carrier, rc.Ops, true, false})
+		fmt.Printf("replay: carrier=%s ops=%v final registry=%s model=%s\n", rc.Carrier, rc.Ops, res.key, res.modelKey)
+		for _, pr := range res.probs {
+			cl, what := pr.render()
+			fmt.Printf("  %s[%s]: %s\n", cl, pr.detail, what)
 		}
-		if len(probs) > 0 {
+		if len(res.probs) > 0 {
 			fmt.Printf("VIOLATION property=C15 replay=%s\n", p)
 			os.Exit(1)
 		}
@@ -703,8 +1148,9 @@ func main() {
 
 	report := func(carrierName string, ops []string, probs []problem) {
 		for _, pr := range probs {
-			fp := fmt.Sprintf("C15|%s|%s|%s", carrierName, pr.clause, pr.detail)
-			rep.Violation(fp, fmt.Sprintf("after ops %v: %s", ops, pr.what), replayCase{carrierName, append([]string(nil), ops...)})
+			cl, what := pr.render()
+			fp := fmt.Sprintf("C15|%s|%s|%s", carrierName, cl, pr.detail)
+			rep.Violation(fp, fmt.Sprintf("after ops %v: %s", ops, what), replayCase{carrierName, append([]string(nil), ops...)})
 		}
 	}
 
@@ -714,20 +1160,23 @@ func main() {
 	nontrivial := map[string]bool{}
 	depthReached := 0
 	frontierEmpty := true
+	nilAcc, nilRef := 0, 0
+	mutProbes, mutProbesWriting := 0, 0
 	var samples []interface{}
+	sampleKinds := map[string]int{}
 	perCarrier := map[string]interface{}{}
 	for _, cn := range carrierNames {
-		regOps, readOps := opsFor(cn)
-		ops := append(append([]string{}, regOps...), readOps...)
+		regOps, readOps, mutOps := opsFor(cn)
+		ops := append(append(append([]string{}, regOps...), readOps...), mutOps...)
 		type node struct {
 			key  string
 			path []string
 		}
-		probs, k0, _, _ := runPath(cn, nil, true)
+		r0 := runPath(job{cn, nil, true, false})
 		traces++
-		report(cn, nil, probs)
-		visited := map[string]bool{k0: true}
-		frontier := []node{{k0, nil}}
+		report(cn, nil, r0.probs)
+		visited := map[string]bool{r0.key: true}
+		frontier := []node{{r0.key, nil}}
 		cStates, cTrans := 1, 0
 		for depth := 0; len(frontier) > 0; depth++ {
 			if depth >= maxDepth {
@@ -735,30 +1184,49 @@ func main() {
 				break
 			}
 			var next []node
-			for _, nd := range frontier {
-				for _, op := range ops {
-					path := append(append([]string{}, nd.path...), op)
-					probs, k, _, _ := runPath(cn, path, false)
-					traces++
-					cTrans++
-					report(cn, path, probs)
-					kind := op
-					if i := strings.IndexByte(op, ':'); i >= 0 {
-						kind = op[:i]
-					}
-					if kind == "reg" || strings.HasPrefix(kind, "ill-") || nd.key != "{}" {
+			pathOf := func(i int) (node, string, []string) {
+				nd, op := frontier[i/len(ops)], ops[i%len(ops)]
+				return nd, op, append(append([]string{}, nd.path...), op)
+			}
+			results := runAll(len(frontier)*len(ops), func(i int) job {
+				_, _, path := pathOf(i)
+				return job{cn, path, false, false}
+			})
+			for i, res := range results {
+				nd, op, path := pathOf(i)
+				k := res.key
+				traces++
+				cTrans++
+				report(cn, path, res.probs)
+				kind := opKind(op)
+				nilAcc += res.nilAcc
+				nilRef += res.nilRef
+				switch {
+				case isRegKind(kind):
+					nontrivial[cn+"|"+nd.key+"|"+op] = true
+				case kind == "mutate":
+					mutProbes++
+					if res.writes > 0 { // the edit really touched something that had been handed out
+						mutProbesWriting++
 						nontrivial[cn+"|"+nd.key+"|"+op] = true
 					}
-					if len(samples) < 9 && cTrans%97 == 5 {
-						samples = append(samples, map[string]interface{}{"carrier": cn, "from": nd.key, "op": op, "to": k, "observed": lastObs, "problems": len(probs)})
-					}
-					if !visited[k] {
-						visited[k] = true
-						cStates++
-						next = append(next, node{k, path})
-						if depth+1 > depthReached {
-							depthReached = depth + 1
-						}
+				case nd.key != "{}":
+					nontrivial[cn+"|"+nd.key+"|"+op] = true
+				}
+				sk := kind
+				if kind == "mutate" {
+					sk = op
+				}
+				if len(samples) < 24 && nd.key == "{p.Mixed}" && sampleKinds[cn+sk] == 0 && (isRegKind(kind) || kind == "mutate" || kind == "info") && (cn == "HandlerMap" || kind == "reg-nil" || op == "mutate:filter") {
+					sampleKinds[cn+sk]++
+					samples = append(samples, map[string]interface{}{"carrier": cn, "from": nd.key, "op": op, "to": k, "observed": res.obs, "problems": len(res.probs)})
+				}
+				if !visited[k] {
+					visited[k] = true
+					cStates++
+					next = append(next, node{k, path})
+					if depth+1 > depthReached {
+						depthReached = depth + 1
 					}
 				}
 			}
@@ -766,55 +1234,90 @@ func main() {
 		}
 		states += cStates
 		transitions += cTrans
-		perCarrier[cn] = map[string]int{"states": cStates, "transitions": cTrans, "ops": len(ops)}
+		perCarrier[cn] = map[string]int{"states": cStates, "transitions": cTrans, "ops": len(ops), "register_ops": len(regOps), "read_ops": len(readOps), "mutate_ops": len(mutOps)}
 	}
 
-	// ---------------- every sequence of registration attempts (no state caching):
-	// checks that the state abstraction is sound (behaviour depends on the set only)
+	// ---------------- every sequence of registration attempts and result edits (no state
+	// caching): checks that the state abstraction is sound (behaviour depends on the set of
+	// (name, handler kind) only, and an edit of handed-out results has no delayed effect)
 	seqLen := 3
 	if rep.Tier == "thorough" {
-		seqLen = 5
+		seqLen = 4
 	}
 	sequences := 0
+	seqAlphabet := map[string]int{}
 	for _, cn := range carrierNames {
-		regOps, _ := opsFor(cn)
+		regOps, _, _ := opsFor(cn)
+		alphabet := append(append([]string{}, regOps...), "mutate:scribble")
+		seqAlphabet[cn] = len(alphabet)
 		for l := 1; l <= seqLen; l++ { // shortest first
-			var rec func(prefix []string)
-			rec = func(prefix []string) {
-				if len(prefix) == l {
-					probs, _, _, _ := runPath(cn, prefix, false)
-					sequences++
-					report(cn, prefix, probs)
-					return
+			total := 1
+			for i := 0; i < l; i++ {
+				total *= len(alphabet)
+			}
+			decode := func(i int) []string {
+				path := make([]string, l)
+				for p := l - 1; p >= 0; p-- {
+					path[p] = alphabet[i%len(alphabet)]
+					i /= len(alphabet)
 				}
-				for _, op := range regOps {
-					rec(append(append([]string{}, prefix...), op))
+				return path
+			}
+			const chunk = 1 << 15
+			for base := 0; base < total; base += chunk {
+				n := total - base
+				if n > chunk {
+					n = chunk
+				}
+				results := runAll(n, func(i int) job { return job{cn, decode(base + i), false, false} })
+				for i, res := range results {
+					sequences++
+					nilAcc += res.nilAcc
+					nilRef += res.nilRef
+					if len(res.probs) > 0 {
+						report(cn, decode(base+i), res.probs)
+					}
 				}
 			}
-			rec(nil)
 		}
 	}
 
+	nilTreatment := "refused by panicking"
+	switch {
+	case nilAcc > 0 && nilRef > 0:
+		nilTreatment = "sometimes accepted, sometimes refused"
+	case nilAcc > 0:
+		nilTreatment = "accepted (like grpc.Server)"
+	}
 	os.Exit(rep.Finish("model_checking", map[string]interface{}{
-		"states":                        states,
-		"transitions":                   transitions,
-		"traces_validated_against_impl": traces + sequences,
-		"bfs_paths_replayed":            traces,
-		"registration_sequences":        sequences,
-		"registration_sequence_length":  seqLen,
-		"depth_bound":                   maxDepth,
-		"depth_reached":                 depthReached,
-		"frontier_exhausted":            frontierEmpty,
-		"per_carrier":                   perCarrier,
-		"reference_grpc_servers_built":  refServers,
-		"evaluations":                   traces + sequences,
-		"distinct_nontrivial":           len(nontrivial),
-		"rule":                          "BFS over (carrier x set of registered names) with 3 registration ops per pool descriptor (good / handler of another service / value of a pointer-receiver type; 6 descriptors on HandlerMap, 4 on the transports) and the read ops (query x every pool name, an unknown name and the near misses of every pool name: leading, trailing, doubled, inner slash, proper prefix, proper suffix, extension, empty; ForEach on HandlerMap; GetServiceInfo); each transition = fresh real object + replay of the shortest path + the op, then the full state oracle. A transition is non-trivial when it is a registration attempt or a read in a non-empty registry; distinct by (carrier, state, op). In addition every sequence of registration attempts up to registration_sequence_length is replayed without state caching.",
-		"samples":                       samples,
-		"exhaustive":                    frontierEmpty,
+		"states":                          states,
+		"transitions":                     transitions,
+		"traces_validated_against_impl":   traces + sequences,
+		"bfs_paths_replayed":              traces,
+		"registration_sequences":          sequences,
+		"registration_sequence_length":    seqLen,
+		"registration_sequence_alphabet":  seqAlphabet,
+		"depth_bound":                     maxDepth,
+		"depth_reached":                   depthReached,
+		"frontier_exhausted":              frontierEmpty,
+		"per_carrier":                     perCarrier,
+		"handler_kinds":                   regKinds,
+		"mutation_kinds":                  mutationKinds,
+		"mutation_probes":                 mutProbes,
+		"mutation_probes_that_wrote":      mutProbesWriting,
+		"fresh_nil_handler_registrations": map[string]interface{}{"accepted": nilAcc, "refused": nilRef, "treatment": nilTreatment},
+		"reference_grpc_servers_built":    atomic.LoadInt64(&refServers),
+		"evaluations":                     traces + sequences,
+		"distinct_nontrivial":             len(nontrivial),
+		"rule":                            "BFS over (carrier x set of (registered name, kind of handler held: pointer / typed-nil pointer / untyped nil)) with 6 registration ops per pool descriptor (handler = pointer implementing the interface | typed-nil pointer of that type | untyped nil | pointer of another service's type | typed-nil pointer of another service's type | value of a pointer-receiver type; 6 descriptors on HandlerMap, 4 on the transports), the read ops (query x every pool name, an unknown name and the near misses of every pool name: leading, trailing, doubled, inner slash, proper prefix, proper suffix, extension, empty; ForEach on HandlerMap; GetServiceInfo) and 10 mutate ops (the caller edits in place EVERY result GetServiceInfo has handed out so far on the path, one op per kind of edit: 6 on the Methods slices incl. their spare capacity, 3 on the map, 1 overwriting everything reachable). Each transition = fresh real object + fresh real grpc.Server, replay of the shortest path on both + the op, then the full state oracle (every read; GetServiceInfo compared with a fresh GetServiceInfo of that grpc.Server, whose handed-out results received the same edits). A mutate op is a differential probe made at every reached state: all reads before, the edit, all reads after; it must be a self loop. A transition is non-trivial when it is a registration attempt, a read in a non-empty registry, or a mutate op that wrote at least one slice element or map entry; distinct by (carrier, state, op). In addition every sequence over (registration ops + 'mutate:scribble') up to registration_sequence_length is replayed without state caching.",
+		"samples":                         samples,
+		"exhaustive":                      frontierEmpty,
 	}, []string{
 		"pool of 4 descriptors (0-2 unary, 0-2 streams covering all four flag pairs, nil/string/struct Metadata) + on HandlerMap a 5th whose ServiceName is \"/p.Unary1\" next to p.Unary1 and a 6th, p.Dup, with repeated method names (a unary method listed twice, a stream of the same name as a unary method, a stream listed twice) (such names cannot be addressed through the transports' /service/method paths, so it is not registered there) + 1 unknown name + near-miss names",
 		"on the two transports, lookup is observed by dispatching every method of the service (in-process Invoke/NewStream; HTTP ServeHTTP on a recorder) and identifying descriptor and handler instance that ran",
-		"a nil handler is not part of the ill-typed alphabet (grpc.Server accepts it)",
+		"untyped nil handler: " + nilHandlerRule,
+		"soundness of the mutate ops: they are probes, not part of the state key. At every reached state each kind of edit is applied to all results handed out on the shortest path to it (these include results obtained before and after every registration of the path, the first and later ones) and every read is repeated at once, so an effect that is visible to any read in the state where the edit is made is found for every state and kind. An effect that stays invisible to all reads in that state and only surfaces after further registrations is covered up to the length of the uncached sequences only (edit 'scribble', which overwrites everything reachable from the results).",
+		"QueryService / ForEach hand out the registered descriptor and handler THEMSELVES (the statement demands exactly those objects, and grpc.Server offers no such lookup), and ServiceInfo.Metadata is the descriptor's own value in grpc.Server too: edits through these are edits of the caller's own registration input, not of a result, and are not part of the alphabet",
+		"the concurrent manifestation of a read operation that writes to the registry (map write racing with a lookup) is a data race outside this sequential engine",
 	}))
 }
